@@ -119,7 +119,9 @@ class Ctx:
         found on the real code (a violation or known finding whose key starts with the
         given prefix); otherwise it is reported by name, no-failing-input-found."""
         explained = explained or {}
-        keys = [v["key"] for v in self.violations] + [k["key"] for k in self.known_hits]
+        # only a NEW violation explains a broken obligation: a listed finding was there while the
+        # obligation still checked, so it cannot be the reason it stopped checking
+        keys = [v["key"] for v in self.violations]
         for o in self.obligations:
             if o["discharged"]:
                 continue
